@@ -41,13 +41,37 @@ var fullAlphabet = []world.Template{
 	world.One(op(world.InjectGER)), world.NextClaim(), world.One(op(world.CloseL2Block)),
 }
 
+// Spacings: L2 block numberings that put events exactly k*S blocks after the first block of a certificate's range, for round
+// S (what a chunked or paged range read would use as its page size, decimal and binary): "S, 2S, 3S, ..." for the first
+// certificate of a chain (its range starts at block 0) and "1, S+2, 2S+3, ..." for the later ones (their range starts one
+// block after a block the syncer holds).
+func Spacings(tier string) []world.Spacing {
+	ss := []uint64{1000, 1024, 4096, 5000, 10000, 65536}
+	if tier == "thorough" {
+		ss = []uint64{2, 10, 16, 50, 64, 100, 128, 200, 250, 256, 500, 512, 1000, 1024, 2000, 2048, 2500, 4096, 5000, 8192, 10000, 16384,
+			20000, 32768, 50000, 65536, 100000, 1 << 20}
+	}
+	var out []world.Spacing
+	for _, s := range ss {
+		out = append(out, world.Spacing{First: s, Gap: s}, world.Spacing{First: 1, Gap: s + 1})
+	}
+	return out
+}
+
 // FamiliesC03: what is enumerated for C03.
 func FamiliesC03(tier string) []world.Family {
-	l2Len, fieldsLen, fullLen := 6, 3, 6
+	l2Len, fieldsLen, fullLen, spacedLen := 6, 3, 6, 4
 	if tier == "thorough" {
-		l2Len, fieldsLen, fullLen = 7, 4, 7
+		l2Len, fieldsLen, fullLen, spacedLen = 7, 4, 7, 5
 	}
 	return []world.Family{
+		{ // sparse L2 stores: the short L2 histories under every L2 block numbering of Spacings
+			Name: "l2-spaced", Prelude: richPrelude, MaxLen: spacedLen,
+			Templates: []world.Template{world.L2DepositRot(), world.NextClaim(), world.One(op(world.CloseL2Block))},
+			Limits:    world.Limits{MaxL2Blocks: 4, NoEmptyL2Blocks: true},
+			Keep:      func(w *world.World) bool { return hasCertMaterial(w) && len(w.L2Blocks) >= 2 },
+			Spacings:  Spacings(tier),
+		},
 		{ // every L2 history (bridges, claims of both origins, block boundaries, empty blocks) after a fixed L1 prelude
 			Name: "l2-history", Prelude: richPrelude, MaxLen: l2Len,
 			Templates: []world.Template{world.L2DepositRot(), world.NextClaim(), world.One(op(world.CloseL2Block))},
